@@ -68,9 +68,7 @@ def rand_series(rng, n):
         x = rng.integers(-2, 3, size=n).astype(float) * rng.uniform(0.5, 2)
     else:
         x = np.cumsum(rng.standard_normal(n)) + rng.uniform(-3, 3)
-    if np.all(x == x[0]):
-        x[-1] = x[0] + 1.0
-    return x
+    return gen.not_constant(x)
 
 
 def build_traces(path, tier, seed):
@@ -87,8 +85,7 @@ def build_traces(path, tier, seed):
         x = rand_series(rng, n)
         if i % 5 == 1:
             x = np.round(x * 2)
-            if np.all(x == x[0]):
-                x[-1] += 1
+            x = gen.not_constant(x)
         shift = float(rng.choice([4.0, -3.0, 100.0, rng.uniform(-10, 10)]))
         if rng.integers(4) == 0 and not (i % 5 == 1):
             # records in small / large units: total variation and the peak-only series are scale free
